@@ -1,4 +1,5 @@
 import TucanProofs.Lemmas.Pipeline
+import TucanProofs.Lemmas.ClassesEdges
 import TucanProofs.Examples
 /-!
 # C13 — partition classes are label-independent, equitable and respect symmetry
@@ -19,8 +20,9 @@ theorem C13_label_independent (order order' : Graph → List Nat) (f : Nat → N
   obtain ⟨_, _, hrl, _⟩ := refined_facts hw hs h
   exact ⟨hk, fun a ha => partOf?_iso isoR (hrl ▸ ha)⟩
 
-/-- **Equitable.**  Atoms in one class share the invariant code (element, mass, radical) and see the same
-multiset of classes among their neighbours. -/
+/-- **Equitable.**  Atoms in one class share the stored invariant code (for chemistry-level atoms that is
+element, mass, radical: `C13_same_class_same_identity`) and see the same multiset of classes among their
+neighbours. -/
 theorem C13_equitable (order : Graph → List Nat) (g c r : Graph) (k : Nat) (hw : g.WF) (hs : g.Simple)
     (h : canonicalizeWith g order = .ok (c, r, k)) :
     ∀ a ∈ r.labels, ∀ b ∈ r.labels, partOf? r a = partOf? r b →
@@ -29,6 +31,29 @@ theorem C13_equitable (order : Graph → List Nat) (g c r : Graph) (k : Nat) (hw
   obtain ⟨heq, hresp, _⟩ := refined_facts hw hs h
   intro a ha b hb hab
   exact ⟨hresp a ha b hb hab, heq a ha b hb hab⟩
+
+/-- **Atoms of one class have the same element, isotope mass and radical state**, for inputs whose atoms are
+chemistry-level (`g.Chem`: the stored invariant code is the one `graph_from_molecule` computes from atomic
+number, mass and radical). -/
+theorem C13_same_class_same_identity (order : Graph → List Nat) (g c r : Graph) (k : Nat) (hw : g.WF) (hs : g.Simple)
+    (hchem : g.Chem) (h : canonicalizeWith g order = .ok (c, r, k)) :
+    ∀ a ∈ g.labels, ∀ b ∈ g.labels, partOf? r a = partOf? r b →
+      ∃ x y, g.attrs? a = some x ∧ g.attrs? b = some y ∧ SameIdent x y :=
+  classes_same_ident order g c r k hw hs hchem h
+
+/-- **The classes are those of the canonicalized molecule**: every atom has a class after refinement, and the
+attribute `partition` of the canonical graph `c` on the renamed atom `σ a` is that class (so every statement of
+this file about `partOf? r a` is a statement about `partOf? c (σ a)`). -/
+theorem C13_classes_on_canonical_graph (order : Graph → List Nat)
+    (hperm : ∀ r : Graph, r.WF → (order r).Perm r.labels)
+    (g c r : Graph) (k : Nat) (hw : g.WF) (hs : g.Simple)
+    (h : canonicalizeWith g order = .ok (c, r, k)) :
+    ∃ σ : Nat → Nat, (∀ a ∈ g.labels, ∀ b ∈ g.labels, σ a = σ b → a = b) ∧ (∀ a ∈ g.labels, σ a ∈ c.labels) ∧
+      ∀ a ∈ g.labels, ∃ q : Int, partOf? r a = some q ∧ partOf? c (σ a) = some q := by
+  obtain ⟨σ, h1, h2, _, h4⟩ := canonicalize_classes order hperm g c r k hw hs h
+  refine ⟨σ, h1, h2, fun a ha => ?_⟩
+  obtain ⟨_, q, _, hr, hc, _⟩ := h4 a ha
+  exact ⟨q, hr, hc⟩
 
 /-- **Symmetry.**  Two atoms that are mapped onto each other by a symmetry of the molecule (an
 identity-preserving automorphism) are in the same class. -/
